@@ -29,7 +29,7 @@ type c15Case struct {
 var c15Algs = []string{"ES256", "RS256", "PS256", "ES384", "none", "HS256"}
 var c15Kids = []string{"registered", "absent", "unknown"}
 var c15Keys = []string{"registered", "other-party", "unregistered"}
-var c15Claims = []string{"valid", "iss-absent", "iss-other", "iss-number", "sub-absent", "sub-other", "sub-number", "aud-list", "aud-list-without", "aud-near-miss", "aud-other", "aud-absent", "aud-number",
+var c15Claims = []string{"valid", "iss-absent", "iss-other", "iss-number", "sub-absent", "sub-other", "sub-number", "aud-list", "aud-list-without", "aud-near-miss", "aud-prefix", "aud-empty", "aud-list-prefix", "iss-empty", "sub-empty", "aud-other", "aud-absent", "aud-number",
 	"exp-float", "exp-float-frac", "exp-string", "exp-absent", "exp-past", "exp-past-frac", "exp-zero", "exp-negative", "exp-zero-float", "exp-too-far", "exp-at-max", "nbf-past", "nbf-future", "iat-absent", "iat-future", "jti-absent", "jti-empty", "jti-number"}
 
 const c15Client = "J"
@@ -104,6 +104,21 @@ func c15Assertion(w *World, c c15Case, jti string) (string, bool, string) {
 	case "aud-near-miss":
 		claims["aud"] = TokenURL + "/"
 		bad("aud is not the token URL")
+	case "aud-prefix":
+		claims["aud"] = TokenURL[:len(TokenURL)-3]
+		bad("aud is a proper prefix of the token URL")
+	case "aud-empty":
+		claims["aud"] = ""
+		bad("aud is the empty string")
+	case "aud-list-prefix":
+		claims["aud"] = []string{TokenURL[:len(TokenURL)-1], ""}
+		bad("aud lists only prefixes of the token URL")
+	case "iss-empty":
+		claims["iss"] = ""
+		bad("iss is the empty string")
+	case "sub-empty":
+		claims["sub"] = ""
+		bad("sub is the empty string")
 	case "aud-other":
 		claims["aud"] = "https://elsewhere.example/token"
 		bad("aud is another server")
@@ -290,6 +305,75 @@ func c15Run(c c15Case, res *WRes) {
 	}
 }
 
+// ---- registered algorithm: every key of the client's JWKS is a registered key, so only the algorithm decides
+
+type c15AlgRegCase struct {
+	Registered string `json:"registered_alg"` // "" = not set at registration (the default, RS256, applies)
+	Alg        string `json:"header_alg"`
+	Kid        bool   `json:"kid_sent"`
+}
+
+var c15RegAlgs = []string{"", "RS256", "PS256", "ES256", "ES384", "RS512"}
+var c15SignAlgs = []string{"RS256", "RS384", "RS512", "PS256", "PS384", "PS512", "ES256", "ES384"}
+
+func c15AlgRegRun(c c15AlgRegCase, res *WRes) {
+	w := NewWorld(Profile{})
+	// client R registers an RSA key and two EC keys; which algorithm it uses is the registration's (default RS256)
+	rc := &fosite.DefaultOpenIDConnectClient{DefaultClient: w.AddClient("R", "", false), TokenEndpointAuthMethod: "private_key_jwt", TokenEndpointAuthSigningAlgorithm: c.Registered,
+		JSONWebKeys: jwks(pubJWK(rsaKey("rsa1"), "r-1", ""), pubJWK(ecKey("ec256b"), "e-1", ""), pubJWK(ecKey("ec384"), "e-2", ""))}
+	w.Mem.Clients["R"] = rc
+	var key any
+	kid := ""
+	switch {
+	case strings.HasPrefix(c.Alg, "RS"), strings.HasPrefix(c.Alg, "PS"):
+		key, kid = rsaKey("rsa1"), "r-1"
+	case c.Alg == "ES256":
+		key, kid = ecKey("ec256b"), "e-1"
+	default:
+		key, kid = ecKey("ec384"), "e-2"
+	}
+	if !c.Kid {
+		kid = ""
+	}
+	now := w.Now()
+	as := signJWT(key, c.Alg, kid, map[string]any{"iss": "R", "sub": "R", "aud": TokenURL, "exp": now.Add(5 * time.Minute).Unix(), "iat": now.Unix(), "jti": "jti-alg"}, nil)
+	o := w.Token(url.Values{"grant_type": {"client_credentials"}, "scope": {"a"}}, Auth{Mode: "omit", Extra: url.Values{"client_assertion_type": {"urn:ietf:params:oauth:client-assertion-type:jwt-bearer"}, "client_assertion": {as}}})
+	res.Trans++
+	want := c.Registered
+	if want == "" {
+		want = "RS256"
+	}
+	acc := issued(o)
+	res.class(fmt.Sprintf("alg-registration:%v:%v", want == c.Alg, acc))
+	res.distinct(fmt.Sprintf("algreg%+v", c))
+	if acc && want != c.Alg {
+		res.violate(Violation{Property: "C15", Fingerprint: fmt.Sprintf("C15/client-assertion/accepted/algorithm-not-registered/registered=%s/alg=%s", want, c.Alg),
+			What: fmt.Sprintf("a client assertion signed with %s by a registered key authenticated a client whose registered algorithm is %s (registration value %q)", c.Alg, want, c.Registered), Engine: "c15algreg", Case: c, Expected: "invalid_client", Observed: o.JSON})
+		return
+	}
+	if acc {
+		res.note("accepted")
+	} else if want == c.Alg && c.Kid {
+		res.note("sanity:registered-algorithm-refused:" + c.Alg + ":" + o.Err)
+	}
+}
+
+func c15AlgRegAll(res *WRes) {
+	for _, reg := range c15RegAlgs {
+		for _, alg := range c15SignAlgs {
+			for _, kid := range []bool{true, false} {
+				c := c15AlgRegCase{Registered: reg, Alg: alg, Kid: kid}
+				n := len(res.Viol)
+				c15AlgRegRun(c, res)
+				res.Evals++
+				if len(res.Viol) == n {
+					res.sample(c)
+				}
+			}
+		}
+	}
+}
+
 // ---- concurrent presentations (all interleavings of the storage steps)
 
 func c15Scenario(use string, n int) Scenario {
@@ -347,6 +431,10 @@ func init() {
 			jwksURIAll("C15", res)
 			return res, nil
 		}
+		if j.Use == "alg-registration" {
+			c15AlgRegAll(res)
+			return res, nil
+		}
 		for _, kid := range c15Kids {
 			for _, key := range c15Keys {
 				for _, cl := range c15Claims {
@@ -379,6 +467,15 @@ func init() {
 		}
 		return res, nil
 	})
+	replayFns["c15algreg"] = func(raw json.RawMessage) ([]Violation, error) {
+		var c c15AlgRegCase
+		if err := json.Unmarshal(raw, &c); err != nil {
+			return nil, err
+		}
+		res := &WRes{}
+		c15AlgRegRun(c, res)
+		return res.Viol, nil
+	}
 	replayFns["c15"] = func(raw json.RawMessage) ([]Violation, error) {
 		var c c15Case
 		if err := json.Unmarshal(raw, &c); err != nil {
@@ -403,6 +500,7 @@ func init() {
 			}
 		}
 		jobs = append(jobs, c15Job{Use: "jwks-uri"})
+		jobs = append(jobs, c15Job{Use: "alg-registration"})
 		res := r.Pool.Do("c15", jobs, r.Deadline)
 		if !r.MergeJobs(res) {
 			r.Exhaustive = false
@@ -423,7 +521,7 @@ func init() {
 			r.Exhaustive = false
 		}
 		defer overlapPart(r, []string{"bearer-jti", "client-assertion-jti"})
-		r.Bounds = map[string]any{"jwks_uri": "client assertions resolved through jwks_uri (real fetcher + cache, in-memory transport): 6 look-alike URI pairs x 6 warm-up histories x 4 cross-client presentations", "uses": []string{"private_key_jwt client assertion", "JWT-bearer grant"}, "header_alg": c15Algs, "kid": c15Kids, "signing_key": c15Keys, "claim_deviations": c15Claims,
+		r.Bounds = map[string]any{"registered_algorithm": map[string]any{"registration": c15RegAlgs, "header_alg": c15SignAlgs, "kid": []string{"sent", "absent"}, "keys": "every signing key is in the client's JWKS"}, "jwks_uri": "client assertions resolved through jwks_uri (real fetcher + cache, in-memory transport): 6 look-alike URI pairs x 6 warm-up histories x 4 cross-client presentations", "uses": []string{"private_key_jwt client assertion", "JWT-bearer grant"}, "header_alg": c15Algs, "kid": c15Kids, "signing_key": c15Keys, "claim_deviations": c15Claims,
 			"optional_claim_configs": "jti optional x iat optional (bearer)", "scopes_vs_key_scopes": []string{"a", "photos", "a photos", "none", "a.b"}, "replay_positions": []string{"immediately", "after other requests + 20 s", "after a longer-lived assertion was recorded", "after expiry"},
 			"schedules": fmt.Sprintf("2 simultaneous presentations: all interleavings at storage-call granularity (unbounded) and lock granularity (preemption bound 2); 3 simultaneous: storage-call granularity, preemption bound %d", bound3)}
 		r.Rule = "grid: header alg x kid x key x every single claim deviation (x scopes x replay position) on a fresh provider, one-sided against the statement; schedules: stateless depth-first exploration of the real token endpoint under a cooperative scheduler, successes per jti counted on every complete execution; states = executions, transitions = scheduling points executed"
